@@ -1,6 +1,6 @@
 SPECIFICATION Spec
 CONSTANTS
-  Tunnels <- MCTunnels
-  Kind <- MCKind
+  Tunnels <- MCTunnels3
+  Kind <- MCKind3
 INVARIANTS TypeOK RegistryMutex WriteMutex LoopImpliesRegistered NothingLeftWhenHandlersAreGone AtMostOneDial RelayNeedsConnection ConnectionNeedsRegisteredLoop ConnectionNeedsTheSteps PairingById InOnlyAfterPublish UserIsTheOneItWasOpenedAs
 CHECK_DEADLOCK FALSE
